@@ -691,6 +691,20 @@ def opGetFullMesh : Op K := fun n a =>
   let nx := n[0]!; let ny := n[1]!
   outMesh #[] nx (2 * ny - 1) (if flag n 2 then MeshGen.fullFromLeft ny (mesh a 0 ny) else MeshGen.fullFromRight ny (mesh a 0 ny))
 
+/-- ints: nx shift nsec ny_0 … ny_{nsec-1} ; floats: section meshes … → unified mesh [nx, uni_ny, 3] -/
+def opUnifyMesh : Op K := fun n a =>
+  let nx := n[0]!; let shift := flag n 1; let ns := n[2]!
+  let secs : List (Unify.Sec K) := Id.run do
+    let mut off := 0
+    let mut l : List (Unify.Sec K) := []
+    for k in [0:ns] do
+      let ny := n[3 + k]!
+      l := l ++ [{ ny := ny, mesh := mesh a off ny }]
+      off := off + 3 * nx * ny
+    return l
+  let (u, tot) := Unify.unify shift secs
+  outMesh #[] nx tot u
+
 /-- ints: nx_old ny num_x ; floats: chord_cos_spacing mesh → new mesh [num_x, ny, 3] -/
 def opAddChordwisePanels : Op K := fun n a =>
   let nxo := n[0]!; let ny := n[1]!; let numX := n[2]!
@@ -774,6 +788,7 @@ def ops : List (String × Op K) := [
   ("SpatialBeam", opSpatialBeam),
   ("GenRectMesh", opGenRectMesh),
   ("GetFullMesh", opGetFullMesh),
+  ("UnifyMesh", opUnifyMesh),
   ("AddChordwisePanels", opAddChordwisePanels),
   ("Validate", opValidate)
 ]
